@@ -3132,8 +3132,10 @@ coap_handle_request_put_block(coap_context_t *context,
           tmp_pdu->code = COAP_RESPONSE_CODE(231);
           coap_send_internal(session, tmp_pdu);
         }
-        coap_update_token(response, lg_srcv->last_token->length, lg_srcv->last_token->s);
-        coap_update_token(pdu, lg_srcv->last_token->length, lg_srcv->last_token->s);
+        if (lg_srcv->last_token) {
+          coap_update_token(response, lg_srcv->last_token->length, lg_srcv->last_token->s);
+          coap_update_token(pdu, lg_srcv->last_token->length, lg_srcv->last_token->s);
+        }
         /* Pass the assembled pdu and body to the application */
         goto give_app_data;
       }
